@@ -23,10 +23,11 @@ func doUp(k int, b ...Prog) Prog      { return Prog{Op: "DoCtx", CE: "up", K: k,
 func doLoader(le string, b ...Prog) Prog {
 	return Prog{Op: "DoLoader", LE: le, Body: b}
 }
-func fork(b ...Prog) Prog { return Prog{Op: "Fork", Body: b} }
-func pgo(b ...Prog) Prog  { return Prog{Op: "Go", Body: b} }
-func tlgo(b ...Prog) Prog { return Prog{Op: "TlGo", Body: b} }
-func try(b ...Prog) Prog  { return Prog{Op: "Try", Body: b} }
+func doParent(b ...Prog) Prog { return Prog{Op: "DoParent", Body: b} }
+func fork(b ...Prog) Prog     { return Prog{Op: "Fork", Body: b} }
+func pgo(b ...Prog) Prog      { return Prog{Op: "Go", Body: b} }
+func tlgo(b ...Prog) Prog     { return Prog{Op: "TlGo", Body: b} }
+func try(b ...Prog) Prog      { return Prog{Op: "Try", Body: b} }
 
 func copyProgs(ps []Prog) []Prog {
 	out := make([]Prog, len(ps))
@@ -90,7 +91,7 @@ func (r *runner) corpus() {
 
 // ---- bounded-exhaustive family: every chain of <= L nested scope constructs ------------------------------
 
-var chainCtors = []string{"Do", "TryDo", "CtxFork", "CtxNew", "CtxUp0", "CtxUp1", "LdrChild", "LdrParent", "Fork", "Go", "TlGo"}
+var chainCtors = []string{"Do", "TryDo", "CtxFork", "CtxNew", "CtxUp0", "CtxUp1", "Parent", "LdrChild", "LdrParent", "Fork", "Go", "TlGo"}
 
 func mkScope(ctor string, body []Prog) Prog {
 	switch ctor {
@@ -106,6 +107,8 @@ func mkScope(ctor string, body []Prog) Prog {
 		return doUp(0, body...)
 	case "CtxUp1":
 		return doUp(1, body...)
+	case "Parent":
+		return doParent(body...)
 	case "LdrChild":
 		return doLoader("child", body...)
 	case "LdrParent":
@@ -161,7 +164,7 @@ func (r *runner) chains() {
 	if r.cfg.Thorough() {
 		maxLen, nRandom, coqStride = 3, 2, 60
 	}
-	rng := lib.NewRng(lib.NewRng(r.cfg.Seed^0xC14).Next())
+	rng := lib.NewRng(lib.NewRng(r.cfg.Seed ^ 0xC14).Next())
 	n := 0
 	var rec func(chain []string, l int)
 	rec = func(chain []string, l int) {
@@ -191,6 +194,99 @@ func (r *runner) chains() {
 	r.res.Extra["chains_programs"] = n
 }
 
+// ---- bounded-exhaustive family: the state of the parent's containers at the time of a fork -------------------
+//
+// Every history of the variable table (never used / deleted from while nil / one or more entries / emptied again in
+// several ways) x every history of the stack (fresh / pushed / pushed and popped back to empty / spare capacity)
+// x every way the parent context itself came about (Do, NewContext, a fork with or without a history of its own)
+// x every route that forks (px.Fork, px.Go, DoWithContext(c.Fork()), pcore.DoWithParent(c, ..)).  The child changes
+// variables and stack, the parent changes them afterwards, a sibling is forked after that: each must see its own.
+
+var fsVars = [][]Prog{
+	{},                                     // nil table
+	{del(0)},                               // Delete while the table is nil
+	{set(0, 1)},                            // one entry
+	{set(0, 1), del(0)},                    // allocated, emptied
+	{set(0, 1), del(1)},                    // Delete of an absent key
+	{set(0, 1), set(1, 2), del(0)},         // one of two left
+	{set(0, 1), set(1, 2), del(0), del(1)}, // emptied from two
+	{set(0, 1), del(0), set(0, 2), del(0)}, // emptied twice
+	{set(0, 1), set(1, 2), set(2, 3)},      // full
+}
+
+var fsStack = [][]Prog{
+	{},
+	{push(1)},
+	{push(1), pop()},                   // emptied, capacity left
+	{push(1), push(2), push(3), pop()}, // spare capacity behind the top
+}
+
+var fsKinds = []string{"Do", "New", "ForkOf", "ForkOfPlain"}
+var fsRoutes = []string{"Fork", "Go", "CtxFork", "Parent"}
+
+func cat(bs ...[]Prog) []Prog {
+	out := []Prog{}
+	for _, b := range bs {
+		out = append(out, copyProgs(b)...)
+	}
+	return out
+}
+
+func forkStateProgram(kind, route string, vh, sh []Prog, variant int) [][]Prog {
+	child := []Prog{obs(), set(2, 7), del(0), set(0, 9), push(8), obs()}
+	switch variant {
+	case 1:
+		child = []Prog{obs(), set(1, 7), obs()}
+	case 2:
+		child = []Prog{obs(), del(0), del(1), del(2), push(8), push(7), obs()}
+	}
+	parentAfter := []Prog{set(1, 5), push(9), obs(), del(1), obs()}
+	sibling := []Prog{obs(), set(2, 6), obs()}
+	inner := cat(vh, sh, []Prog{obs(), mkScope(route, child)}, parentAfter, []Prog{mkScope(route, sibling), obs(), set(0, 4), obs()})
+	switch kind {
+	case "Do":
+		return [][]Prog{{obs(), do(inner...), obs()}}
+	case "New":
+		return [][]Prog{{obs(), doCtx("new", inner...), obs()}}
+	case "ForkOf":
+		return [][]Prog{{do(cat(vh, sh, []Prog{doCtx("fork", inner...), obs()})...), obs()}}
+	case "ForkOfPlain":
+		plain := cat([]Prog{obs(), mkScope(route, child)}, parentAfter, []Prog{mkScope(route, sibling), obs(), set(0, 4), obs()})
+		return [][]Prog{{do(cat(vh, sh, []Prog{doCtx("fork", plain...), obs()})...), obs()}}
+	}
+	panic("bad kind")
+}
+
+func (r *runner) forkStates(family string, minGid int64, routes []string, stride int, file string) {
+	variants := []int{0}
+	if r.cfg.Thorough() {
+		variants = []int{0, 1, 2}
+	}
+	rng := lib.NewRng(lib.NewRng(r.cfg.Seed ^ 0xF0C14).Next())
+	n := 0
+	for _, kind := range fsKinds {
+		for _, route := range routes {
+			for _, vh := range fsVars {
+				for _, sh := range fsStack {
+					for _, v := range variants {
+						roots := forkStateProgram(kind, route, vh, sh, v)
+						relabel(roots)
+						n++
+						k := n
+						r.schedulesG(roots, family, rng, 1, k%8 == 0, minGid, func(i int) string {
+							if (k+i)%stride == 0 {
+								return fmt.Sprintf("%s%d", file, (k/stride)%2)
+							}
+							return ""
+						})
+					}
+				}
+			}
+		}
+	}
+	r.res.Extra[family+"_programs"] = n
+}
+
 // ---- seeded random programs ---------------------------------------------------------------------------
 
 func randomBody(r *lib.Rng, depth int, inCtx bool) []Prog {
@@ -212,7 +308,7 @@ func randomBody(r *lib.Rng, depth int, inCtx bool) []Prog {
 		switch {
 		case x < 16:
 			b = append(b, obs())
-		case x < 28:
+		case x < 26:
 			b = append(b, set(r.Intn(nKeys), r.Intn(4)))
 		case x < 31:
 			b = append(b, del(r.Intn(nKeys)))
@@ -229,13 +325,22 @@ func randomBody(r *lib.Rng, depth int, inCtx bool) []Prog {
 		case x < 68:
 			b = append(b, Prog{Op: "Do", Try: r.Chance(1, 3), Body: randomBody(r, depth-1, true)})
 		case x < 76:
-			ce := []string{"fork", "fork", "new", "up"}[r.Intn(4)]
-			b = append(b, Prog{Op: "DoCtx", CE: ce, K: r.Intn(3), Body: randomBody(r, depth-1, inCtx || ce == "new")})
+			ce := []string{"fork", "fork", "new", "up", "parent"}[r.Intn(5)]
+			if ce == "fork" || ce == "parent" {
+				b = append(b, emptied(r, inCtx)...)
+			}
+			if ce == "parent" {
+				b = append(b, Prog{Op: "DoParent", Body: randomBody(r, depth-1, inCtx)})
+			} else {
+				b = append(b, Prog{Op: "DoCtx", CE: ce, K: r.Intn(3), Body: randomBody(r, depth-1, inCtx || ce == "new")})
+			}
 		case x < 82:
 			b = append(b, Prog{Op: "DoLoader", LE: []string{"child", "child", "parent", "base"}[r.Intn(4)], Body: randomBody(r, depth-1, inCtx)})
 		case x < 88:
+			b = append(b, emptied(r, inCtx)...)
 			b = append(b, Prog{Op: "Fork", Body: randomBody(r, depth-1, inCtx)})
 		case x < 92:
+			b = append(b, emptied(r, inCtx)...)
 			b = append(b, Prog{Op: "Go", Body: randomBody(r, depth-1, inCtx)})
 		case x < 94:
 			b = append(b, Prog{Op: "TlGo", Body: randomBody(r, depth-1, false)})
@@ -245,6 +350,25 @@ func randomBody(r *lib.Rng, depth int, inCtx bool) []Prog {
 		if inCtx && r.Chance(1, 3) {
 			b = append(b, obs())
 		}
+	}
+	return b
+}
+
+// emptied: now and then the context is forked right after its variable table (and sometimes its stack) has been
+// emptied again - containers that exist but hold nothing are a state of their own for the copying code of Fork
+func emptied(r *lib.Rng, inCtx bool) []Prog {
+	if !inCtx || !r.Chance(1, 4) {
+		return nil
+	}
+	b := []Prog{}
+	if r.Chance(1, 2) {
+		b = append(b, set(r.Intn(nKeys), r.Intn(4)))
+	}
+	for k := 0; k < nKeys; k++ {
+		b = append(b, del(k))
+	}
+	if r.Chance(1, 3) {
+		b = append(b, push(r.Intn(5)), pop())
 	}
 	return b
 }
